@@ -251,7 +251,8 @@ def run_check(prop, modname, tier="quick", seed=0, procs=None, level="proof", as
                         else:
                             rest.append(fl_)
                     if not rest:
-                        n_known_obl += 1
+                        if o["kind"] not in ("B", "S"):
+                            n_known_obl += 1
                         continue
                     ob = dict(ob, model=rest[0]["model"], note=rest[0]["note"])
                     ob.pop("all_failures", None)
@@ -260,7 +261,8 @@ def run_check(prop, modname, tier="quick", seed=0, procs=None, level="proof", as
                 kf = _match_known(known, oid, ob)
                 if kf is not None:
                     known_hit.append((kf, oid))
-                    n_known_obl += 1
+                    if o["kind"] not in ("B", "S"):
+                        n_known_obl += 1
                     continue
                 if ob.get("native") or (rep and rep.get("confirmed") is True):
                     violations.append((oid, ob, rep, True))
